@@ -114,7 +114,7 @@ def mixed(slice_i, n):
 
 
 def parts(tier):
-    return [Part("mixed%d" % i, enumerate_cases=(lambda t, i=i: mixed(i, 8)), check=check, time_quick=150.0) for i in range(8)] + [Part("shapes%d" % i, enumerate_cases=(lambda t, i=i: shapes(i, 4)), check=check, time_quick=120.0) for i in range(4)] + [
+    return [Part("wide_nodes", strategy=lambda t: __import__("vf.strategies", fromlist=["x"]).wide_case().map(lambda c: dict(c, via_not=len(str(c)) % 2 == 0)), check=check, quick=(2, 150), thorough=(4, 2000))] + [Part("mixed%d" % i, enumerate_cases=(lambda t, i=i: mixed(i, 8)), check=check, time_quick=150.0) for i in range(8)] + [Part("shapes%d" % i, enumerate_cases=(lambda t, i=i: shapes(i, 4)), check=check, time_quick=120.0) for i in range(4)] + [
         Part("thresholds", strategy=lambda t: focus(t), check=check, quick=(2, 400), thorough=(4, 3000)),
         Part("small", strategy=lambda t: strat(t, "small"), check=check, quick=(6, 350), thorough=(12, 2500)),
         Part("large", strategy=lambda t: strat(t, "large"), check=check, quick=(2, 250), thorough=(4, 1500)),
